@@ -58,7 +58,7 @@ CLAIMED = {
         engine="E2-logged-real-spawns",
         technique="Coq: exhaustive evaluation of the child's descriptor table at exec and of the holder counts of every pipe, with earlier Popens' close-on-exec ends present in the parent; children's real descriptor tables self-reported",
         text="Theorems C08_*: at exec the child holds only 0,1,2 and descriptors the application itself made inheritable -- no parent-side end, no status-pipe end, no end of an earlier child's pipe -- under every injected failure; every library descriptor left in the parent is close-on-exec (so the next spawn starts from the same invariant: histories on one thread); each pipe has exactly one parent-side holder, so EOF propagates at once.  PARTIAL: concurrent spawns from several threads are not modelled (known finding F9).",
-        note="Trusted: as C05.",
+        note="Trusted: as C05.  PARTIAL with respect to the statement's 'concurrently with spawns on other threads': the theorems cover launches that do not overlap a launch on another thread (every swept configuration has c_inflight = false); with an overlapping launch the predicate is proved to FAIL (C08_F9_inflight_ends_leak) and the real code fails the same way under a fixed two-thread schedule -- known finding F9 (known_findings.txt), reported as KNOWN-FINDING on every run.  Pipelines: the children's tables are checked on real pipelines (incl. the stderr capture pipe, fixed F8), the model sweep is for single launches.",
         design="5/C08"),
     "C09": dict(
         engine="E1-kernel-in-the-loop",
